@@ -16,6 +16,18 @@ Proof.
   rewrite all_ok_app, H by (left; reflexivity). cbn. apply IH. intros y Hy. apply H. right; exact Hy.
 Qed.
 
+(** the validation passes / guards the models look up in the source are there (Gen.fn_guards, Gen.fn_lets) *)
+Lemma asef_guard_present : asef_guard = true.
+Proof. vm_compute. reflexivity. Qed.
+Lemma vt_single_guard_present : vt_single_guard = true.
+Proof. vm_compute. reflexivity. Qed.
+Lemma as_validation_is_present : as_validation_present = true.
+Proof. vm_compute. reflexivity. Qed.
+Lemma il_guard_present : il_guard = true.
+Proof. vm_compute. reflexivity. Qed.
+Lemma from_str_guard_present : from_str_guard = true.
+Proof. vm_compute. reflexivity. Qed.
+
 Definition count_true (en : list bool) : nat := length (filter (fun b => b) en).
 
 Lemma zip_filter_length {A} (xs : list A) (en : list bool) :
@@ -60,7 +72,7 @@ Qed.
 Lemma assert_single_enabled_field_safe is_enum en :
   all_ok (ops_of (assert_single_enabled_field is_enum en)) = true.
 Proof.
-  unfold assert_single_enabled_field. destruct is_enum; [reflexivity|].
+  unfold assert_single_enabled_field. rewrite asef_guard_present. cbn [andb]. destruct is_enum; [reflexivity|].
   destruct (mfd_lengths en) as (H1 & H2 & _ & _ & H5 & H6 & H7 & _).
   destruct (m_fields (enabled_fields_data en) =? 1) eqn:E; cbn [negb ops_of]; [|reflexivity].
   apply Nat.eqb_eq in E. rewrite H1 in E.
@@ -262,7 +274,7 @@ Ltac vt_sub_ok := cbn [all_ok forallb op_ok andb]; rewrite ?andb_true_r;
 
 Lemma validate_type_arith_safe n ty : all_ok (vt_ops (validate_type n ty)) = true.
 Proof.
-  unfold validate_type. rewrite vt_unplaced_nil. destruct ty as [k|].
+  unfold validate_type. rewrite vt_unplaced_nil, vt_single_guard_present. cbn [andb]. destruct ty as [k|].
   - destruct (1 <? n) eqn:E1; [|destruct ((n =? 1) && (k =? 0)); reflexivity].
     destruct (Nat.compare_spec n k) as [H|H|H]; cbn [vt_ops app]; try reflexivity.
     + (* Less: self.len() < elems.len() *)
@@ -301,7 +313,7 @@ Proof.
   destruct (validate_type (flen fk) ty) as [ops k|ops] eqn:E; cbn [ops_of vt_ops] in *; [|exact Hv].
   rewrite !all_ok_app, Hv, from_expand_fields_unit_arm_unreachable. cbn [andb].
   apply all_ok_unwraps. rewrite expand_fields_wraps_eq.
-  unfold validate_type in E. destruct ty as [k'|].
+  unfold validate_type in E. rewrite vt_single_guard_present in E. cbn [andb] in E. destruct ty as [k'|].
   - destruct (1 <? flen fk) eqn:E1.
     + destruct (Nat.compare_spec (flen fk) k') as [H|H|H]; try discriminate.
       injection E as _ <-. lia.
@@ -326,6 +338,12 @@ Lemma len1_next_safe n : all_ok (len1_next n) = true.
 Proof. unfold len1_next. destruct (n =? 1) eqn:E; [apply Nat.eqb_eq in E; subst; reflexivity | reflexivity]. Qed.
 
 Lemma len1_index0_safe n : all_ok (len1_index0 n) = true.
+Proof. unfold len1_index0. destruct (n =? 1) eqn:E; [apply Nat.eqb_eq in E; subst; reflexivity | reflexivity]. Qed.
+
+Lemma from_str_index0_safe n : all_ok (from_str_index0 n) = true.
+Proof. unfold from_str_index0. rewrite from_str_guard_present. apply len1_index0_safe. Qed.
+
+Lemma len1_index0_safe' n : all_ok (len1_index0 n) = true.
 Proof. unfold len1_index0. destruct (n =? 1) eqn:E; [apply Nat.eqb_eq in E; subst; reflexivity | reflexivity]. Qed.
 
 (* ------------------------------------------------------------------------------------------ *)
@@ -359,7 +377,7 @@ Qed.
 
 Lemma as_field_attrs_skip_unreachable attrs : all_ok (ops_of (as_field_attrs attrs)) = true.
 Proof.
-  unfold as_field_attrs.
+  unfold as_field_attrs. rewrite as_validation_is_present. cbn [andb].
   set (present := flat_map _ attrs).
   destruct (forallb is_skip present) eqn:Eall; cbn [negb andb]; [reflexivity|].
   destruct (existsb is_skip present) eqn:Eex; [reflexivity|]. cbn [ops_of].
@@ -378,7 +396,7 @@ Qed.
 
 Lemma into_legacy_top_level_safe top owned ref_ ref_mut : all_ok (into_legacy top owned ref_ ref_mut) = true.
 Proof.
-  unfold into_legacy.
+  unfold into_legacy. rewrite il_guard_present. cbn [andb].
   destruct top as [[|t]|]; destruct owned as [[|o]|]; destruct ref_ as [[|r]|]; destruct ref_mut as [[|m]|];
     reflexivity.
 Qed.
